@@ -4,8 +4,10 @@ PROP = dict(
         n=dict(quick=300, thorough=6000),
         nontrivial=r'^(L \d+ \S+ \| \d{1,9}$|A |AA |D |F |N |PT \S+ \S+ \| ok )',
         rule='one evaluation = one ObjectTree operation (newObject/append/appendAfter/detach/free) or one query '
-             '(Find/NumArgs/ArgAt/ClosestNamedAncestor/ObjectAt) on the real code, replayed through the Lean model; '
-             'distinct = by hash of (op, observation); non-trivial = a mutating op or a lookup that found a node',
+             '(Find/NumArgs/ArgAt/ClosestNamedAncestor/ObjectAt) on the real code, replayed through the Lean model, or one table '
+             'loaded by the real ParseAML (shipped corpus + generated tables, 1-3 per parser; the parser is a client of the tree ops and is '
+             'not replayed: the dumped pool is judged by the WF oracle and by lookups of every declared name); '
+             'distinct = by hash of (op, observation); non-trivial = a mutating op, a table that parsed, or a lookup that found a node',
         trusted=['harness bookkeeping only chooses operations; contracts are re-decided by the Lean driver on the dumped pool'],
         assumptions=['sequential use of one ObjectTree', 'pool length < 2^32-1 (uint32 indices)'],
         level_text='Lean theorems over the index-linked pool model of obj_tree.go, for every pool, history and byte string: '
@@ -18,7 +20,9 @@ PROP = dict(
                    'multi-segment downward only; every segment count), numArgs_correct, argAt_correct, closestNamedAncestor_total, '
                    'wfCheck_sound + decode_sound (the replay oracle\'s checks are instances of WF / find_correct). The model is tied to '
                    'the Go code by regenerated constants and a differential run of every ObjectTree operation and query with a full pool '
-                   'dump after each operation; the oracle runs on the implementation\'s dump.',
+                   'dump after each operation; the oracle runs on the implementation\'s dump. Histories produced by clients of the tree ops are '
+                   'covered by a second harness part: tables fed through the real ParseAML, pool dumped after every table, WF oracle + '
+                   'lookups of every declared name from several scopes.',
         level_note='All clauses of the property are proved for the model (no _partial theorem left). Not proved: the specification of '
                    'ClosestNamedAncestor (only its totality; its result is checked by the oracle), and completeness of wfCheck (only '
                    'soundness). Torn pool states after a mid-operation Go panic (contract violations only) are not modelled. '
